@@ -650,7 +650,12 @@ impl ResidencyDb {
             for page in bucket {
                 for entry in &mut page.entries {
                     if key_set.contains(&entry.ekey) {
-                        entry.update_type = ResidencyUpdateType::Delete;
+                        // a new entry, so that the hash guard covers the new type byte
+                        *entry = ResidencyEntry::new(
+                            entry.ekey,
+                            entry.span,
+                            ResidencyUpdateType::Delete,
+                        );
                     }
                 }
             }
